@@ -270,6 +270,51 @@ def check_chain(case):
                        expected={"xyz": x0}, observed={"after": step, "object": repr(o), "xyz": x1, "dist_m": d}, bucket="closure")
 
 
+def check_interleaved(case):
+    """Independent conversions on changing ellipsoids, projected -> geographic and geographic -> projected in any order, each
+    judged on its own against the exact projection (the harness makes no library call in between): what a coordinate object
+    converts to must not depend on which objects were converted before."""
+    from ..oracles import tm_exact
+    co = repo.mod("geodepy.coord")
+    ran = 0
+    for k, op in enumerate(case["ops"]):
+        ellname, lat, lon = op["ell"], op["lat"], op["lon"]
+        if abs(lat) < 1e-9:
+            lat = 0.0           # (sub-nanodegree latitudes project to a northing of exactly 0 / 10 000 000: keep the equator itself)
+        ell = S.make_ellipsoid(ellname)
+        a, invf = S.ellipsoid_params(ellname)
+        zone = int((lon + 180.0) // 6.0) + 1
+        zone = min(max(zone, 1), 60)
+        cm = -177.0 + (zone - 1) * 6.0
+        e0, n0, _, _ = tm_exact.project(lat, lon, cm, a, invf, 0.9996, 500000.0, 10000000.0)
+        if op["dir"] == "fwd":
+            r = co.CoordGeo(lat, lon, op["h"]).tm(ell)
+            if r.zone != zone:
+                continue            # (on a zone limit: the other admissible zone)
+            d = math.hypot(r.east - e0, r.north - n0)
+            what = "CoordGeo.tm"
+        else:
+            r = co.CoordTM(zone, round(e0, 4), round(n0, 4), op["h"], hemi_north=(lat >= 0)).geo(ell, float)
+            d = math.hypot((r.lat - lat) * 111000.0, (r.lon - lon) * 111000.0 * math.cos(math.radians(lat)))
+            what = "CoordTM.geo"
+        if not d <= 3e-4:
+            raise Fail("%s gives a position more than 0.3 mm from the exact projection after other coordinate objects were converted" % what,
+                       expected={"lat": lat, "lon": lon, "east": e0, "north": n0, "zone": zone},
+                       observed={"call": k, "result": repr(r), "dist_m": d, "earlier": [(o["dir"], str(o["ell"])) for o in case["ops"][:k]]},
+                       bucket="interleaved " + op["dir"])
+        if r.ell_ht != op["h"]:
+            raise Fail("%s does not carry the ellipsoidal height" % what, expected=op["h"], observed=r.ell_ht, bucket="interleaved height")
+        ran += 1
+    if not ran:
+        raise Discard()
+
+
+_iop = st.fixed_dictionaries({"dir": st.sampled_from(["fwd", "inv", "inv"]), "ell": st.sampled_from(["grs80", "ans", "grs80", "ans", "wgs84", "intl24"]),
+                              "lat": st.one_of(S.floats(-79.0, 83.0), S.floats(-60.0, -5.0)), "lon": S.floats(-179.9, 179.9),
+                              "h": st.one_of(st.none(), st.just(0.0), S.floats(-100.0, 3000.0))})
+interleaved_cases = st.lists(_iop, min_size=3, max_size=8).map(lambda ops: {"ops": ops})
+
+
 # ------------------------------------------------------------------------------------------------ generators
 
 h_s = st.one_of(st.none(), st.just(0.0), S.floats(-100.0, 9000.0), st.sampled_from([10.0, -0.0977, 603.2]))
@@ -311,9 +356,19 @@ def _classes(case):
     return out
 
 
+SUBCHECKS_EXTRA = [
+    SubCheck("interleaved_objects", check_interleaved, strategy=interleaved_cases,
+             nontrivial=lambda c: len({(str(o["ell"]), o["dir"]) for o in c["ops"]}) >= 3,
+             classes=lambda c: ["ellipsoids:%d" % len({str(o["ell"]) for o in c["ops"]}), "calls:%d" % len(c["ops"])],
+             quick=600, thorough=40000, shards_quick=3, shards_thorough=12, fresh=(8, 64, 3),
+             rule="3..8 independent UTM conversions of coordinate objects in both directions on changing ellipsoids, each judged against "
+                  "the exact projection (0.3 mm) with no harness call in between"),
+]
+
 SUBCHECKS = [
     SubCheck("conversion_chains", check_chain, strategy=chains(), nontrivial=_nt, classes=_classes,
              quick=3000, thorough=200000, shards_quick=4, shards_thorough=16,
              rule="every step == functional API for the same ellipsoid / projection / notation (exact); heights preserved geo<->tm, "
                   "N = h - H to/from Cartesian (zero is a value); notation changes keep the position (1e-8\"); closure 0.3 mm at every step"),
 ]
+SUBCHECKS += SUBCHECKS_EXTRA
